@@ -1,6 +1,7 @@
 """C45 — security advisories flag exactly the vulnerable installed versions (restriction-shape rules)."""
 import ast
 
+from ..core import generic as G
 from ..core import astutil as A
 from ..core import match as M
 from ..core.model import dotted
@@ -103,6 +104,10 @@ def run(ctx):
     else:
         ctx.ob("R5", gr, "the eq-glob is no longer a raw string prefix match")
     ctx.floor("R5", 1)
+
+    # ---- R6 a malformed <package> entry is skipped alone, not with the rest of the advisory -------------------------
+    G.per_item_isolation(ctx, "R6", "pkgcore.pkgsets.glsa", "GlsaDirSet.iter_vulnerabilities", "generate_intersects_from_pkg_node", "package entry")
+    ctx.floor("R6", 1)
 
 
 F = "src/pkgcore/pkgsets/glsa.py"
